@@ -674,6 +674,16 @@ _C19 = [
      'tie_theorem': 'C19.src_reverse_iter_lines_eq_model',
      'translator': 'py2lean_c19', 'ext': 'py2lean_c19', 'gen_file': 'jsonutils_lines',
      'c19': {'file': {'param': 'file_obj', 'data': 'file_data', 'pos': 'file_pos'}, 'none_params': ['encoding']}},
+    # round 3f, text mode: the SAME function at its other declared kind: `encoding` is the non-empty str 'utf-8' (so
+    # `encoding or file_obj.encoding` is `encoding`), `file_obj` as above; `line.decode(encoding)` = PyRtC19.decodeUtf8?
+    {'module': 'boltons.jsonutils', 'qualname': 'reverse_iter_lines', 'lean_name': 'reverse_iter_lines_text',
+     'params': {'file_data': 'List β', 'file_pos': 'Int', 'blocksize': 'Int', 'preseek': 'Bool'},
+     'tparams': ['β'], 'deceq': ['β'], 'classes': ['PyRtC19.Byte β'],
+     'kind': 'generator', 'result': 'Str', 'raises': True, 'loop_fuel': True,
+     'tie_theorem': 'C19.src_reverse_iter_lines_text_eq_model',
+     'translator': 'py2lean_c19', 'ext': 'py2lean_c19', 'gen_file': 'jsonutils_lines_text',
+     'c19': {'file': {'param': 'file_obj', 'data': 'file_data', 'pos': 'file_pos'}, 'truthy_params': ['encoding'],
+             'codec': 'utf-8'}},
 ]
 SPECS['C19'] = _C19
 # boltons.setutils.IndexedSet (round 3d, C11): the tombstone / dead-interval bookkeeping, translated by
